@@ -5,7 +5,7 @@ unchanged tree would turn a spurious solver candidate into a false VIOLATION, so
 import inspect, os, subprocess, sys
 V = os.path.dirname(os.path.dirname(os.path.abspath(__file__)))
 sys.path.insert(0, os.path.join(V, "lib"))
-import mirsmt, miragg, mirblocks, mirflow, mirpaths, mirload, mirquery, mirorder, mirparse
+import mirsmt, miragg, mirblocks, mirflow, mirpaths, mirload, mirquery, mirorder, mirparse, mirgen
 src = sys.argv[1] if len(sys.argv) > 1 else "/tmp/selftest_src"
 if len(sys.argv) <= 1:
     subprocess.check_call(["rsync", "-rlpc", "--delete", "--exclude", "/target", "--exclude", ".git", "/repo/", src + "/"])
@@ -14,7 +14,7 @@ bad = 0
 # recipes that DO reproduce on the unchanged tree because they demonstrate a recorded known finding (known_findings.json)
 KNOWN = {"mirflow.replay_duplicate_names"}
 recipes = []
-for mod in (mirblocks, mirflow, mirpaths, mirload, mirquery, mirorder, mirparse):
+for mod in (mirblocks, mirflow, mirpaths, mirload, mirquery, mirorder, mirparse, mirgen):
     for name, f in inspect.getmembers(mod, inspect.isfunction):
         if name.startswith("replay_") and f.__module__ == mod.__name__:
             recipes.append((mod.__name__ + "." + name, f))
